@@ -582,7 +582,14 @@ impl Engine for Conv {
                     let exp = match *label {
                         "max" => Exp::Is(Out::V(if ord == Ordering::Less { b } else { a })),
                         "min" => Exp::Is(Out::V(if ord == Ordering::Greater { b } else { a })),
-                        "hash_eq" => Exp::Is(Out::B(ord == Ordering::Equal)),
+                        // equal values must hash equally; that unequal values hash differently is not stated
+                        "hash_eq" => {
+                            if ord == Ordering::Equal {
+                                Exp::Is(Out::B(true))
+                            } else {
+                                Exp::Free
+                            }
+                        }
                         _ => ord_exp(Some(ord), label),
                     };
                     check(label, got, exp, &mut ev);
